@@ -1,5 +1,6 @@
 import BlobfinderModel.Proofs.Eval
 import BlobfinderModel.Proofs.FourierBridge
+import BlobfinderModel.Proofs.Kernels
 import BlobfinderModel.Properties.C19
 /-!
 # C03 — outputs equal their documented definitions on a direct correlation  (partial)
@@ -130,12 +131,25 @@ theorem fft_wiring :
 
 theorem kernel_wiring :
     Gen.evaluate_body = "corr = corrs[i] ; center = unravel_index(np.argmax(corr), corr.shape) ; refined = np.array(refine_center(center, 2, corr), dtype=np.float32) ; height = np.float32(corr[center]) ; out_centers[i] = _shift(np.array(center), peaks[i], crop_size) ; out_refineds[i] = _shift(refined, peaks[i], crop_size) ; out_heights[i] = height ; out_elevations[i] = np.float32(peak_elevation(refined, corr, height))" ∧
-    Gen.com_body = "r_y = r_x = np.float32(0) ; for y in range(arr.shape[0]): for x in range(arr.shape[1]): r_y += np.float32(arr[y, x] * y) r_x += np.float32(arr[y, x] * x) ; s = arr.sum() ; return (np.float32(r_y / s), np.float32(r_x / s))" ∧
-    Gen.elev_call_args = "refined, corr, height" ∧
-    Gen.elev_dist_expr = "np.sqrt((y - peak_y) ** 2 + (x - peak_x) ** 2)" ∧
-    Gen.elev_update = "result = min((result, np.float32((height - corrmap[y, x]) / dist)))" ∧
-    Gen.elev_return = "max(0, result)" ∧ Gen.elev_init = "np.float32(np.inf)" := by
-  refine ⟨rfl, rfl, rfl, rfl, rfl, rfl, rfl⟩
+    Gen.elev_call_args = "refined, corr, height" := by
+  refine ⟨rfl, rfl⟩
+
+/-- **The refinement of the model is the `refine_center` / `center_of_mass` of the source** as
+translated on this run (loops → sums, slices → sub-images): clip of the radius, guard, cut-out,
+minimum subtraction, first moments over the total, re-anchoring. -/
+theorem refine_center_is_generated (corr : ℤ → ℤ → ℚ) (h w cy cx r : ℤ) :
+    refineCenter corr h w cy cx r = Gen.refine_center corr h w cy cx r :=
+  refineCenter_eq_gen corr h w cy cx r
+
+/-- **The elevation of the model is the square of the `peak_elevation` of the source** as translated
+on this run (running minimum from `inf` of `(height − corrmap[y, x]) / dist` over the pixels with
+`dist ≥ r_min`, floored at 0), for every function `sqrt` that squares back on non-negative rationals;
+`height` is an upper bound of the map (it is the maximum). -/
+theorem peak_elevation_is_generated (sqrt : ℚ → ℚ) (hs : ∀ t : ℚ, 0 ≤ t → 0 ≤ sqrt t ∧ sqrt t * sqrt t = t)
+    (corr : ℤ → ℤ → ℚ) (h w : ℤ) (py px height : ℚ)
+    (hmax : ∀ y x : ℤ, 0 ≤ y → y < h → 0 ≤ x → x < w → corr y x ≤ height) :
+    (Gen.peak_elevation corr h w sqrt py px height Gen.elev_rmin).map (· ^ 2) = elevation2 corr h w py px height :=
+  elevation2_eq_gen_sq sqrt hs corr h w py px height hmax
 
 /-- a 1-D convolution with a delta at `q` reads the mask at `(k − q) mod n` -/
 theorem conv_delta (mask : ℤ → ℚ) (n q k : ℤ) (hn : 0 < n) (hq : 0 ≤ q ∧ q < n) :
